@@ -102,8 +102,20 @@ func c04FlagOrder(w *World, r *Report) {
 			}
 		}
 	}
+	// table-driven form: the families sit in a local table {values: opts.X, parse: strvals.ParseY} that is
+	// walked front to back, each row's values applied with the row's function on the accumulator
+	tableIdx := flagTable(fn, accAliases)
+	inTable := func(field string) (int, bool) { k, ok := tableIdx[field]; return k.row, ok }
 	// consumers: calls of the family's consumer function inside the loop over that field
 	for i, ff := range flagFamilies {
+		if te, ok := tableIdx[ff.Field]; ok && fams[i].load != nil {
+			key := "family:" + ff.Field
+			okRow := te.consumer == ff.Consumer
+			r.Check(okRow && te.onAcc, "C04/FLAG-ORDER", key+"/in-place", w.InstrPos(fams[i].load), ff.Field+" is applied with "+ff.Consumer+" (its table row) directly on the accumulator", ff.Field+" is paired with "+te.consumer+" in the table (or not applied on the accumulator): a different application changes how existing lists and maps are addressed")
+			r.Check(te.forward, "C04/FLAG-ORDER", key+"/index-order", w.InstrPos(fams[i].load), "the table and the row's slice are ranged over front to back", "the table or the slice is not consumed front to back (later flags would not win)")
+			fams[i].consumers = []ssa.CallInstruction{te.call}
+			continue
+		}
 		if fams[i].load == nil {
 			r.Bad("C04/FLAG-ORDER", "family:"+ff.Field, w.Pos(fn.Pos()), "the "+ff.Field+" family is not consumed by MergeValues")
 			continue
@@ -150,9 +162,16 @@ func c04FlagOrder(w *World, r *Report) {
 		if a.load == nil || b.load == nil || len(a.consumers) == 0 || len(b.consumers) == 0 {
 			continue
 		}
+		ra, ina := inTable(flagFamilies[i].Field)
+		rb, inb := inTable(flagFamilies[i+1].Field)
+		if ina && inb {
+			r.Check(ra < rb, "C04/FLAG-ORDER", fmt.Sprintf("order:%s<%s", flagFamilies[i].Field, flagFamilies[i+1].Field), w.InstrPos(b.load),
+				flagFamilies[i+1].Field+" comes after "+flagFamilies[i].Field+" in the table that is walked front to back", flagFamilies[i+1].Field+" comes before "+flagFamilies[i].Field+" in the table: the documented precedence is broken")
+			continue
+		}
 		ok := true
 		for _, cb := range b.consumers {
-			if !g.DominatesInstr(a.load, posOf(cb)) {
+			if !ina && !inb && !g.DominatesInstr(a.load, posOf(cb)) {
 				ok = false
 			}
 			for _, ca := range a.consumers {
@@ -810,4 +829,155 @@ func c04MultiDoc(w *World, r *Report) {
 		}
 	}
 	r.Check(why == "", "C04/MULTI-DOC", "LoadValues", w.InstrPos(dec), "each document gets its own map and is merged key by key", why+": a table repeated in a later document replaces the earlier one instead of merging with it")
+}
+
+type flagTableEntry struct {
+	row      int
+	consumer string
+	call     ssa.CallInstruction
+	onAcc    bool
+	forward  bool
+}
+
+// flagTable recognises `rows := []struct{…}{{…, opts.Values, strvals.ParseInto}, …}; for _, row := range rows
+// { for _, v := range row.values { row.parse(v, acc) } }` and returns, per Options field, its row.
+func flagTable(fn *ssa.Function, acc map[ssa.Value]bool) map[string]flagTableEntry {
+	out := map[string]flagTableEntry{}
+	for _, b := range fn.Blocks {
+		for _, in := range b.Instrs {
+			al, ok := in.(*ssa.Alloc)
+			if !ok {
+				continue
+			}
+			arr, ok := al.Type().Underlying().(*types.Pointer).Elem().Underlying().(*types.Array)
+			if !ok {
+				continue
+			}
+			st, ok := arr.Elem().Underlying().(*types.Struct)
+			if !ok || al.Referrers() == nil {
+				continue
+			}
+			_ = st
+			type row struct {
+				field, consumer string
+			}
+			rows := map[int]*row{}
+			for _, rf := range *al.Referrers() {
+				ia, ok := rf.(*ssa.IndexAddr)
+				if !ok || ia.Referrers() == nil {
+					continue
+				}
+				idx, ok := constInt(ia.Index)
+				if !ok {
+					continue
+				}
+				rw := rows[int(idx)]
+				if rw == nil {
+					rw = &row{}
+					rows[int(idx)] = rw
+				}
+				// the row is either filled field by field in place, or built in a temporary and stored whole
+				var holders []ssa.Value
+				holders = append(holders, ia)
+				for _, rr := range *ia.Referrers() {
+					if s0, ok := rr.(*ssa.Store); ok && s0.Addr == ssa.Value(ia) {
+						if ld, ok := s0.Val.(*ssa.UnOp); ok && ld.Op == token.MUL {
+							if tmp, ok := ld.X.(*ssa.Alloc); ok {
+								holders = append(holders, tmp)
+							}
+						}
+					}
+				}
+				for _, h := range holders {
+					if h.Referrers() == nil {
+						continue
+					}
+					for _, rr := range *h.Referrers() {
+						fa, ok := rr.(*ssa.FieldAddr)
+						if !ok || fa.Referrers() == nil {
+							continue
+						}
+						for _, r3 := range *fa.Referrers() {
+							s3, ok := r3.(*ssa.Store)
+							if !ok || s3.Addr != ssa.Value(fa) {
+								continue
+							}
+							switch v := s3.Val.(type) {
+							case *ssa.UnOp:
+								if p, t, f := fieldNameOf(v.X); p == valuesPkg && t == "Options" {
+									rw.field = f
+								}
+							case *ssa.Function:
+								rw.consumer = FuncName(v)
+							case *ssa.MakeClosure:
+								if cf, ok := v.Fn.(*ssa.Function); ok {
+									for _, c := range callInstrs(cf) {
+										if f, _ := calleeOf(c.Common()); f != nil && strings.HasPrefix(FuncName(f), "pkg/strvals.") {
+											rw.consumer = FuncName(f)
+										}
+									}
+								}
+							case *ssa.ChangeType:
+								if f, ok := v.X.(*ssa.Function); ok {
+									rw.consumer = FuncName(f)
+								}
+							}
+						}
+					}
+				}
+			}
+			nField := 0
+			for _, rw := range rows {
+				if rw.field != "" {
+					nField++
+				}
+			}
+			if nField < 2 {
+				continue
+			}
+			// the dynamic call through the row's function field
+			var dyn ssa.CallInstruction
+			onAcc := false
+			for _, c := range callInstrs(fn) {
+				if c.Common().IsInvoke() || c.Common().StaticCallee() != nil {
+					continue
+				}
+				if _, isB := c.Common().Value.(*ssa.Builtin); isB {
+					continue
+				}
+				if _, isMC := c.Common().Value.(*ssa.MakeClosure); isMC {
+					continue
+				}
+				args := c.Common().Args
+				if len(args) >= 2 && acc[args[1]] {
+					dyn = c
+					onAcc = true
+				} else if dyn == nil && len(args) >= 2 {
+					dyn = c
+				}
+			}
+			if dyn == nil {
+				continue
+			}
+			// front to back: every IndexAddr with a variable index on slices in this function counts up
+			forward := true
+			for _, b2 := range fn.Blocks {
+				for _, in2 := range b2.Instrs {
+					if ia, ok := in2.(*ssa.IndexAddr); ok {
+						if _, isC := constInt(ia.Index); !isC && !phiCountsUp(ia.Index) {
+							if reach, _ := FullGraph(fn).PathExists(posOf(ia), posOf(dyn), Avoid{}); reach {
+								forward = false
+							}
+						}
+					}
+				}
+			}
+			for i, rw := range rows {
+				if rw.field != "" {
+					out[rw.field] = flagTableEntry{row: i, consumer: rw.consumer, call: dyn, onAcc: onAcc, forward: forward}
+				}
+			}
+		}
+	}
+	return out
 }
